@@ -2851,10 +2851,19 @@ ANY_OBJECT_Unmarshal(OBJECT *data, BYTE **buffer, INT32 *size, BOOL verbose)
     }
 
     if (rc == TPM_RC_SUCCESS && data->attributes.occupied) {
-        if (ObjectIsSequence(data))
+        if (ObjectIsSequence(data)) {
             rc = HASH_OBJECT_Unmarshal((HASH_OBJECT *)data, buffer, size);
-        else
+            /* A sequence object is in the NULL hierarchy. HASH_OBJECT does not
+             * carry the field, and when the volatile state is restored the slot
+             * has not gone through FindEmptyObjectSlot(): without this a later
+             * TPM2_ContextSave() writes hierarchy 0 and TPM2_ContextLoad()
+             * refuses that context.
+             */
+            if (rc == TPM_RC_SUCCESS)
+                data->hierarchy = TPM_RH_NULL;
+        } else {
             rc = OBJECT_Unmarshal(data, buffer, size);
+        }
     }
 
     /* version 2 starts having indicator for next versions that we can skip;
